@@ -317,7 +317,8 @@ class WorldDriver:
                  shapes=((), ('A',), ('B',), ('A', 'X'), ('B', 'X')),
                  toggles=False, max_postponed=2, processors=False,
                  bogus_delete=False, coarse=True, clear_op=True,
-                 delete_ops=True, process_op=True, stray_marks=False):
+                 delete_ops=True, process_op=True, stray_marks=False,
+                 readd=False):
         self.name = name
         self.own = set(own)
         self.types = tuple(types)
@@ -332,6 +333,9 @@ class WorldDriver:
         # stray_marks: deferred delete of an id of the alphabet that owns
         # nothing at the moment, and clear() while such a mark exists
         self.stray_marks = stray_marks
+        # readd: a component the entity already owns is given again (the
+        # very same instance), through add_component and create_entity
+        self.readd = readd
         self.coarse = coarse
         self.clear_op = clear_op
         self.delete_ops = delete_ops
@@ -348,6 +352,7 @@ class WorldDriver:
                     processors=self.processors, coarse_key=self.coarse,
                     bogus_delete=self.bogus_delete,
                     stray_marks=self.stray_marks,
+                    readd_same_instance=self.readd,
                     families=sorted(self.own))
 
     # -- construction --------------------------------------------------
@@ -472,6 +477,11 @@ class WorldDriver:
         for e in self.ids:
             for t in self.types:
                 ops.append(('remove', e, t))
+        if self.readd:
+            for e in self.ids:
+                for t in ctx.rows.get(e, {}):
+                    ops.append(('readd', e, t, 'add'))
+                    ops.append(('readd', e, t, 'create'))
         if self.delete_ops:
             for e in self.ids:
                 if e in ctx.rows:
@@ -634,6 +644,28 @@ class WorldDriver:
                         ctx.pending.discard(e)
                         ctx.ghost.add(e)
                         ctx.hits['pending_row_vanished'] += 1
+
+        elif kind == 'readd':
+            # the instance the entity owns is attached to it once more: it
+            # is detached (on_remove) and attached again (on_add), and ends
+            # up attached and listening
+            _, e, t, how = op
+            comp = ctx.rows[e][t]
+            ctx.hits['readd_attached_instance'] += 1
+            events.append((comp, 'on_remove', e))
+            events.append((comp, 'on_add', e))
+            try:
+                if how == 'add':
+                    w.add_component(e, comp)
+                elif w.create_entity(comp, entity_id=e) != e:
+                    self.fail('Q', 'create_returns_id',
+                              f'create_entity(entity_id={e!r}) returned '
+                              f'another id', op='readd')
+            except Violation:
+                raise
+            except Exception as exc:
+                self.fail('Q', 'op_raised', f'{op} raised {exc!r}',
+                          op='readd')
 
         elif kind == 'delete':
             _, e = op
